@@ -149,12 +149,31 @@ fn chains(rng: &mut Rng) -> G {
     G { names, start: 0, prods }
 }
 
+/// Self-embedding productions with several leading terminals: NA: NB [x]; NB: t.. NB u.. | d  (FOLLOW of NB comes from
+/// what stands behind its own recursive occurrence).
+fn embedded(rng: &mut Rng) -> G {
+    let lead: Vec<Sy> = (0..rng.range(1, 3)).map(|_| Sy::T(5 + rng.below(2) as u16)).collect();
+    let trail: Vec<Sy> = (0..rng.range(1, 2)).map(|_| Sy::T(7 + rng.below(2) as u16)).collect();
+    let mut rec = lead.clone();
+    rec.push(Sy::N(1));
+    rec.extend(trail.iter().cloned());
+    if rng.chance(1, 3) { rec.push(Sy::N(2)); }
+    let mut start = vec![Sy::N(1)];
+    if rng.chance(1, 2) { start.push(Sy::T(10)); }
+    let mut prods = vec![(0, start), (1, rec), (1, vec![Sy::T(9)])];
+    prods.push((2, vec![Sy::T(11)]));
+    prods.push((2, vec![]));
+    let used2 = prods.iter().any(|(_, r)| r.contains(&Sy::N(2)));
+    if !used2 { prods.truncate(3); }
+    G { names: (0..if used2 { 3 } else { 2 }).map(nt_name).collect(), start: 0, prods }
+}
+
 pub fn run_ff(a: &Args) {
     let mut rng = Rng::new(a.seed ^ ((a.shard as u64) << 32) ^ 0xC06);
     let d = Dials { max_nts: 4, max_terms: 3, max_alts: 3, max_rhs: 3, eps_pct: 20, nt_pct: 50 };
     for i in 0..a.n {
-        let g = if i % 3 == 1 { chains(&mut rng) } else { random_clean(&mut rng, &d, true) };
-        let maxk = if i % 10 == 0 || i % 3 == 1 { 4 } else { rng.range(1, 3) };
+        let g = if i % 3 == 1 { chains(&mut rng) } else if i % 6 == 2 { embedded(&mut rng) } else { random_clean(&mut rng, &d, true) };
+        let maxk = if i % 10 == 0 || i % 3 == 1 { 4 } else if i % 6 == 2 { rng.range(1, 3) } else { rng.range(1, 3) };
         ff_cases(&g, &mut rng, maxk);
     }
 }
